@@ -57,9 +57,14 @@ def run_group(hists, vars_, tag, schedule=None, switch=None):
                 cond.notify_all()
         return hook
 
+    fresh = [[] for _ in range(n)]
+
     def body(i):
         try:
             ctxs[i] = z3_ctx_id()
+            import claripy
+            # symbols named by the library (no explicit name): two calls never denote the same variable, whoever calls
+            fresh[i] = [next(iter(claripy.BVS("fr", 8).variables)) for _ in range(3)]
             tr, S, meta = W.run_history(hists[i], vars_, f"{tag}-t{i}", {}, step_hook=hook_for(i))
             A = {"vars": vars_, "W": vars_[0][1], "exprs": ALPHA["exprs"]}
             tr["ev"].extend(W.continue_history(W.probe_battery(A, sorted(S), i % 3), S, meta, vars_, {}))
@@ -91,6 +96,8 @@ def run_group(hists, vars_, tag, schedule=None, switch=None):
         tr["ctx_end"] = tr.get("ctx_end", 0) % (1 << 30)
         tr["main_ctx"] = main_ctx % (1 << 30)
         tr["all_ctx"] = [c % (1 << 30) for c in ctxs]
+        tr["fresh"] = fresh[i]
+        tr["other_fresh"] = [x for j in range(n) if j != i for x in fresh[j]]
         tr["crash"] = errors[i] or ("hung" if results[i] is None else "")
         out.append(tr)
     return out
@@ -99,20 +106,57 @@ def run_group(hists, vars_, tag, schedule=None, switch=None):
 ALPHA = None
 
 
+def solo_rec(ev):
+    return {"call": ev["call"], "ret": ev["ret"], "failed": ev["exc"] != ""}
+
+
+def solo_main():
+    """the same histories, each run ALONE (sequentially, main thread, fresh process): the reference for 'as if used alone'"""
+    global ALPHA
+    job = json.load(sys.stdin)
+    ALPHA = W.alphabet(job["W"])
+    out = []
+    for g, hists in enumerate(job["groups"]):
+        res = []
+        for i, h in enumerate(hists):
+            try:
+                tr, S, meta = W.run_history(h, ALPHA["vars"], f"solo-{g}-{i}", {})
+                A = {"vars": ALPHA["vars"], "W": ALPHA["vars"][0][1], "exprs": ALPHA["exprs"]}
+                tr["ev"].extend(W.continue_history(W.probe_battery(A, sorted(S), i % 3), S, meta, ALPHA["vars"], {}))
+                res.append([solo_rec(e) for e in tr["ev"]])
+            except Exception:  # noqa: BLE001
+                res.append([])
+        out.append(res)
+    json.dump(out, sys.stdout)
+
+
+def run_solo(job, groups):
+    import os
+    import subprocess
+    p = subprocess.run([sys.executable, "-m", "harness.w_threads", "--solo"], input=json.dumps({"W": job.get("W", 3), "groups": groups}),
+                       capture_output=True, text=True, timeout=900, env=dict(os.environ))
+    if p.returncode != 0:
+        raise RuntimeError("solo reference run failed: " + p.stderr[-500:])
+    return json.loads(p.stdout)
+
+
 def main():
     global ALPHA
+    if len(sys.argv) > 1 and sys.argv[1] == "--solo":
+        return solo_main()
     job = json.load(open(sys.argv[1]))
     rng = random.Random(job.get("seed", 0))
     out = ShardWriter(sys.argv[2], job.get("shard", 300))
     ALPHA = W.alphabet(job.get("W", 3))
     classes = job.get("classes", [["Solver", {}], ["SolverComposite", {}], ["SolverCacheless", {}], ["SolverHybrid", {}]])
     calls = 0
+    all_hists, all_traces = [], []
     for g in range(job["groups"]):
         n = rng.choice(job.get("nthreads", [2, 3, 4]))
         hists = []
         for _ in range(n):
             cls, kw = rng.choice(classes)
-            hists.append(W.random_history(rng, ALPHA, cls, kw, rng.randint(3, job.get("len", 8))))
+            hists.append(W.random_history(rng, ALPHA, cls, kw, rng.randint(3, job.get("len", 8)), truthy=(g % 2 == 1)))
         schedule = None
         switch = None
         if job["mode"] == "baton":
@@ -123,7 +167,12 @@ def main():
                 schedule = [rng.randrange(n) for _ in range(sum(len(h) for h in hists) + n)]
         else:
             switch = rng.choice([0.005, 0.0001, 0.00001])
-        for tr in run_group(hists, ALPHA["vars"], f"{job.get('tag', 'thr')}-{job.get('seed', 0)}-{g}", schedule, switch):
+        all_hists.append(hists)
+        all_traces.append(run_group(hists, ALPHA["vars"], f"{job.get('tag', 'thr')}-{job.get('seed', 0)}-{g}", schedule, switch))
+    solo = run_solo(job, all_hists)
+    for g, trs in enumerate(all_traces):
+        for i, tr in enumerate(trs):
+            tr["solo"] = solo[g][i]
             calls += len(tr["ev"])
             out.write(tr, nontrivial_key=[tr["tid"]], outcome=job["mode"],
                       sample={"threads": tr["nthreads"], "mode": job["mode"], "calls": len(tr["ev"])})
